@@ -861,7 +861,18 @@ static void describe_abort(char *buf, size_t n)
 static void tune(const hx_plan_t *p, sim_params_t *sp)
 {
     sp->quantum_ns = 20;
-    sp->max_steps = (uint64_t)hx_knob(p, "max_steps", 80000000);
+    /* single-rank plans with tasks inserting tasks under a threshold of 1 or 2: complete runs take 1.6-2 M steps, and a
+     * third of them ends in the nested window-stop hang (describe_abort: nested-insertion-waits-for-own-dependents), whose
+     * idle polling makes 80 M steps cost minutes of wall clock; 24 M is still 12 times a complete run */
+    int nested = 0;
+    for (int i = 0; i < p->nops; i++) if (p->ops[i].op == OP_TASK && ((p->ops[i].b >> 8) & 0xff)) nested = 1;
+    long thr = hx_knob(p, "threshold", 0);
+    long dflt = nested && hx_knob(p, "nranks", 1) == 1 && thr >= 1 && thr <= 2 ? 24000000 : 80000000;
+    /* plans with a task naming one tile in several parameters are shadowed as a whole by KF-DTD-REPEATED-TILE and often
+     * hang: no point in paying 80 M steps of idle polling (up to 4 minutes of wall clock with 8 threads) for them */
+    plan_to_shared(p);
+    if (plan_has_repeat()) dflt = 24000000;
+    sp->max_steps = (uint64_t)hx_knob(p, "max_steps", dflt);
 }
 
 static const hx_harness_t H = {
